@@ -18,14 +18,14 @@ Ideal(src) == [parsed |-> TRUE, strings_ir |-> Strings(src), strings_out |-> Str
                opens |-> [i \in DOMAIN Opens(src) |-> LET l == SelectSeq(src, LAMBDA q : q.specs # <<>>)[i].specs IN l]]
 
 Src == Source(p[1], p[2], p[3])
-Targeted == p[2] \in {"code", "openspec"}
+Targeted == p[2] \in {"code", "openspec", "semiopen"}
 
 IdealAccepted == Clauses(Src, Ideal(Src)) = {}
 Others == {t \in Triggers : t # p[1] /\ Legal(t, p[2], p[3])}
 Sensitive == ~Targeted => \A t \in Others : Clauses(Src, Ideal(Source(t, p[2], p[3]))) # {}
 TargetExempt == (p[2] = "code" /\ p[1] \in Macros) =>
                    \A t \in Macros : Clauses(Src, Ideal(Source(t, "code", "start"))) = {}
-RestoreDemanded == p[2] = "openspec" =>
+RestoreDemanded == p[2] \in {"openspec", "semiopen"} =>
                    Clauses(Src, [Ideal(Src) EXCEPT !.opens = [i \in DOMAIN @ |-> SelectSeq(@[i], LAMBDA s : s[1] \notin {"convert", "newunit"})]]) = {"open-specifiers"}
 NotParsingRejected == Clauses(Src, [Ideal(Src) EXCEPT !.parsed = FALSE]) = {"parse"}
 NonVacuous == Observed(Src) >= 2
